@@ -89,8 +89,15 @@ struct ProcOut {
 }
 
 fn run_binary(dir: &Path, file: Option<&Path>, exprs: &[String]) -> ProcOut {
+    run_binary_with(dir, file, exprs, &[])
+}
+
+fn run_binary_with(dir: &Path, file: Option<&Path>, exprs: &[String], extra: &[&str]) -> ProcOut {
     let mut cmd = Command::new(BIN);
     cmd.arg("--no-config").arg("--no-init").arg("--color").arg("never");
+    for x in extra {
+        cmd.arg(x);
+    }
     if let Some(f) = file {
         cmd.arg(f);
     }
@@ -347,6 +354,45 @@ fn emit(out: &mut Out, base: &Context, dir: &Path, mode: Mode, prog: &[String], 
     }
 }
 
+/// the same program under `--pretty-print <pp>`: the flag changes what is echoed, never whether the run counts as a
+/// success. Checked on the binary only: exit status 0 iff every input succeeds in the library, the diagnostic of the
+/// failing input on stderr, no diagnostic on stdout.
+fn emit_pretty(out: &mut Out, base: &Context, dir: &Path, pp: &str, as_file: bool, prog: &[String]) {
+    let check = |prog: &[String]| -> Option<String> {
+        let path: PathBuf = dir.join("prog.nbt");
+        let content = prog.join("\n");
+        let mut ctx = base.clone();
+        let e = eval_input(&mut ctx, &content, if as_file { CodeSource::File(path.clone()) } else { CodeSource::Text });
+        let p = if as_file {
+            std::fs::write(&path, &content).expect("write program");
+            run_binary_with(dir, Some(&path), &[], &["--pretty-print", pp])
+        } else {
+            run_binary_with(dir, None, prog, &["--pretty-print", pp])
+        };
+        if p.code < 0 {
+            return Some(format!("the binary did not run / was killed: {}", p.stderr));
+        }
+        if e.ok != (p.code == 0) {
+            return Some(format!("--pretty-print {}: exit status {} but the input {} in the library", pp, p.code, if e.ok { "succeeds".to_string() } else { format!("fails ({})", e.stage) }));
+        }
+        if !e.ok && !p.stderr.contains(e.diag.trim_end()) {
+            return Some(format!("--pretty-print {}: stderr lacks the diagnostic of the failing input; stderr = {:?}", pp, p.stderr));
+        }
+        if e.ok && !p.stderr.is_empty() {
+            return Some(format!("--pretty-print {}: the input succeeds but stderr is not empty: {:?}", pp, p.stderr));
+        }
+        None
+    };
+    out.count(&format!("pretty_print_{}", pp));
+    out.case(&format!("pp {} {} {}", pp, if as_file { "file" } else { "exprs" }, prog.join(SEP)), prog.len() >= 2);
+    if check(prog).is_some() {
+        let small = shrink_seq(prog, |c| !c.is_empty() && check(c).is_some());
+        let w = check(&small).unwrap_or_default();
+        let t = format!("{} {} {}", pp, if as_file { "file" } else { "exprs" }, small.join(SEP));
+        out.oracle_fail(&format!("c22-pp:{}", t), &format!("ppprog {}", t), &w);
+    }
+}
+
 /// a program of `n` statements; `bad` = (kind, position) of the failing statement
 fn gen_prog(rng: &mut Rng, base: &Context, n: usize, bad: Option<(Bad, usize)>) -> (Vec<String>, Vec<&'static str>) {
     let mut env = Env::default();
@@ -364,9 +410,18 @@ fn gen_prog(rng: &mut Rng, base: &Context, n: usize, bad: Option<(Bad, usize)>) 
                 continue;
             }
         }
+        // now and then a line that starts with a minus sign: as a `-e` value it must be read like any other line
+        if rng.chance(1, 10) {
+            let t = rng.pick(&["-1 + 2", "-(2 + 3) * 2", "-2^2", "--3", "-1 m + 2 m"]).to_string();
+            if run_input(&mut probe, &t).ok() {
+                lines.push(t);
+                tags.push("leading_minus");
+                continue;
+            }
+        }
         let mut scratch = env.clone();
         let s = gen_ok_stmt(&mut scratch, rng, true);
-        // every generated line is one `-e` argument: keep it free of leading dashes and NULs (it is)
+        // every generated line is one `-e` argument (no NULs)
         if run_input(&mut probe, &s.text).ok() {
             scratch.apply(&s.eff);
             env = scratch;
@@ -396,7 +451,7 @@ fn build_cli() -> Result<(), String> {
 fn main() {
     let args = Args::parse();
     let mut out = Out::new(&args);
-    out.rule = "programs of 2-8 one-line statements from the session generator (definitions, imports, expressions, prints, ans), either all succeeding or with one failing statement of a chosen kind (unknown module, parse, name clash, type, run time) at a chosen position (first, middle, last); each program is handed to the real `numbat` binary as a file, as `-e` arguments (the mirror of the former, compared with it) and split into file + `-e` (two inputs). distinct = mode + program text; non-trivial = at least two statements".into();
+    out.rule = "programs of 2-8 one-line statements from the session generator (definitions, imports, expressions, prints, ans), either all succeeding or with one failing statement of a chosen kind (unknown module, parse, name clash, type, run time) at a chosen position (first, middle, last); each program is handed to the real `numbat` binary as a file, as `-e` arguments (the mirror of the former, compared with it) and split into file + `-e` (two inputs); every third program is also run under `--pretty-print always|never` (exit status and stderr only). distinct = mode + program text; non-trivial = at least two statements".into();
 
     if let Err(e) = build_cli() {
         eprintln!("{}", e);
@@ -409,7 +464,13 @@ fn main() {
 
     let replay_lines: Option<Vec<String>> = args.replay.as_ref().map(|p| read_lines(p));
     let run_line = |out: &mut Out, l: &str| {
-        if let Some(rest) = l.strip_prefix("prog ") {
+        if let Some(rest) = l.strip_prefix("ppprog ") {
+            let mut it = rest.splitn(3, ' ');
+            if let (Some(pp), Some(m), Some(p)) = (it.next(), it.next(), it.next()) {
+                let prog: Vec<String> = p.split(SEP).map(|s| s.to_string()).collect();
+                emit_pretty(out, &base, &dir, pp, m == "file", &prog);
+            }
+        } else if let Some(rest) = l.strip_prefix("prog ") {
             let mut it = rest.splitn(2, ' ');
             if let (Some(m), Some(p)) = (it.next().and_then(Mode::parse), it.next()) {
                 let prog: Vec<String> = p.split(SEP).map(|s| s.to_string()).collect();
@@ -463,6 +524,11 @@ fn main() {
                 Some((k, p)) => format!("{}_at_{}", k.stage(), if p == 0 { "first" } else if p == n - 1 { "last" } else { "middle" }),
             };
             emit(&mut out, &base, &dir, mode, &prog, &tags, &intent, true);
+            // every third program also under an explicit --pretty-print setting
+            if i % 3 == 0 {
+                let pp = if (i / 3) % 2 == 0 { "always" } else { "never" };
+                emit_pretty(&mut out, &base, &dir, pp, (i / 3) % 4 < 2, &prog);
+            }
         }
     }
     let _ = std::fs::remove_dir_all(&dir);
